@@ -23,6 +23,22 @@ CLAIMED = {
               "Trusted: the no-cache (MemoryLoader) path as reference."),
         technique="deterministic simulation: simulated processes + crash/errno fault injection at file-system seam, PCT schedules, observer processes on snapshots",
     ),
+    "C16": dict(
+        category="exploration",
+        text=("Seeded histories (4-26 operations) of a deployer (writes versions, stamps mtimes from a simulated "
+              "clock incl. backward/same-tick/sub-second steps, deletes, restores) and a server (render, list macros, "
+              "use a macro from another template, content type, loader.load with several name shapes, load: "
+              "expression) over 1-3 files in 1-3 search directories, with EIO/ENOENT injected at the server's "
+              "stat/read seam. After every step the outcome must be one an independent instance of the expected "
+              "version produces; compile counts must match the mtime rule; loader results are checked for identity "
+              "and first-match resolution; after faults stop one tick and one use must give the latest version. "
+              "Sampling of histories: evidence, not proof."),
+        design_ref="DESIGN.md 3.6",
+        note=("Strictly sequential (one server thread); reload decisions are modelled by the mtime rule, "
+              "same-mtime rewrites accept either version. Trusted: a fresh PageTemplateFile on a private copy as "
+              "the source of expected text. package-relative specs are not exercised."),
+        technique="deterministic simulation: operation histories under a simulated clock and faulty disk, checked step by step against a reference model of file system + reload rule + search-path walk",
+    ),
 }
 
 PENDING = {
@@ -30,7 +46,6 @@ PENDING = {
     "C12": "claimed by design (DESIGN 3.2) but its check is not built yet in this commit",
     "C13": "claimed by design (DESIGN 3.3) but its check is not built yet in this commit",
     "C14": "claimed by design (DESIGN 3.4) but its check is not built yet in this commit",
-    "C16": "claimed by design (DESIGN 3.6) but its check is not built yet in this commit",
 }
 
 NOT_APPLICABLE = {
